@@ -8,6 +8,7 @@ From Coq Require Import String List Ascii Bool Arith ZArith.
 From GP Require Import Base.Sexp Model.Gv Model.Decode Gen.Structs.
 Import ListNotations.
 Local Open Scope string_scope.
+Local Open Scope list_scope.
 
 Inductive ty : Type :=
 | TString | TInt | TBool | TFloat | TAny
@@ -59,6 +60,7 @@ Definition ty_of_row (r : field_row) : ty := parse_ty (S (String.length (row_typ
 
 Section Reflect.
   Variable structs : list (string * list field_row).
+  Variable zf : nat.     (* fuel for zero values: any number above the by-value struct nesting depth *)
 
   Definition fields_of (n : string) : list field_row :=
     match aget n structs with Some l => l | None => [] end.
@@ -111,11 +113,11 @@ Section Reflect.
     | O => UErr
     | S f =>
         match g with
-        | GNull => UOk (zero f t)
+        | GNull => UOk (zero zf t)
         | _ =>
             match t with
             | TPtr u =>
-                let inner := match old with VPtr v => v | _ => zero f u end in
+                let inner := match old with VPtr v => v | _ => zero zf u end in
                 match unm f u g inner with UOk v => UOk (VPtr v) | UErr => UErr end
             | TAny => UOk (VAny g)
             | _ =>
@@ -127,7 +129,7 @@ Section Reflect.
                            match m with
                            | [] => UOk (VMap acc)
                            | (k, v) :: r =>
-                               match unm f vt v (zero f vt) with
+                               match unm f vt v (zero zf vt) with
                                | UOk nv => each r (aset k nv acc)
                                | UErr => UErr
                                end
@@ -138,7 +140,7 @@ Section Reflect.
                         else
                           let fs0 := match old with
                                      | VStruct fs => fs
-                                     | _ => match zero f t with VStruct fs => fs | _ => [] end
+                                     | _ => match zero zf t with VStruct fs => fs | _ => [] end
                                      end in
                           match (fix each (asg : list (field_row * string * gv)) (fs : list (string * val)) : option (list (string * val)) :=
                                    match asg with
@@ -167,11 +169,12 @@ Section Reflect.
                 | GSeq l =>
                     match t with
                     | TSlice et =>
+                        (* a non-nil source always yields a non-nil slice *)
                         (fix each (l : list gv) (acc : list val) : ures :=
                            match l with
                            | [] => UOk (VSlice acc)
                            | a :: r =>
-                               match unm f et a (zero f et) with
+                               match unm f et a (zero zf et) with
                                | UOk x => each r (acc ++ [x])
                                | UErr => UErr
                                end
@@ -195,13 +198,13 @@ Section Reflect.
     | O => VNil
     | S f =>
         match g with
-        | GNull => zero f t
+        | GNull => zero zf t
         | _ =>
             match t with
-            | TString => match g with GStr s => VStr s | _ => zero f t end
-            | TInt => match g with GInt z => VInt z | _ => zero f t end
-            | TBool => match g with GBool b => VBool b | _ => zero f t end
-            | TFloat => match g with GFloat j st => VFloat j st | _ => zero f t end
+            | TString => match g with GStr s => VStr s | _ => zero zf t end
+            | TInt => match g with GInt z => VInt z | _ => zero zf t end
+            | TBool => match g with GBool b => VBool b | _ => zero zf t end
+            | TFloat => match g with GFloat j st => VFloat j st | _ => zero zf t end
             | TAny => VAny g
             | TPtr u => VPtr (ref f u g)
             | TSlice et => match g with GSeq l => VSlice (map (ref f et) l) | _ => VNil end
@@ -223,23 +226,25 @@ Section Reflect.
                                                  end
                                   end) (fields_of n) in
                     let lo := filter (fun kv => negb (existsb (fun r => String.eqb (primary_key r) (fst kv)) keyed)) m in
+                    let fs0 := match zero zf t with VStruct fs => fs | _ => [] end in
+                    let z := fun r : field_row => match aget (row_name r) fs0 with Some x => x | None => VNil end in
                     VStruct (map (fun r =>
                                     (row_name r,
                                      match classify r with
                                      | FKeyed => match ref_lookup r m with
                                                  | Some v => ref f (ty_of_row r) v
-                                                 | None => zero f (ty_of_row r)
+                                                 | None => z r
                                                  end
                                      | FInline =>
                                          match inl, lo with
                                          | Some r', (_ :: _) =>
                                              if String.eqb (row_name r') (row_name r) then ref f (ty_of_row r) (GMap lo)
-                                             else zero f (ty_of_row r)
-                                         | _, _ => zero f (ty_of_row r)
+                                             else z r
+                                         | _, _ => z r
                                          end
-                                     | FSkip => zero f (ty_of_row r)
+                                     | FSkip => z r
                                      end)) (exported n))
-                | _ => zero f t
+                | _ => zero zf t
                 end
             end
         end
